@@ -48,22 +48,6 @@ Definition op_no_stale_role (y : sys) (o : sop) : bool :=
 Definition restamp_free (old new_ : tset) : bool :=
   forallb (fun '(c, s) => match tget c new_ with Some s' => s' <=? s | None => true end) old.
 Definition princ_ok (p : princ) (new_ : tset) : bool := (p_inval p =? 0) || restamp_free (p_set p) new_.
-Definition user_no_restamp (y : sys) : bool :=
-  princ_ok (g_user (y_g y)) (computed_chans 0 (y_docs y) (y_uexp y))
-  && princ_ok (g_uroles (y_g y)) (computed_roles (y_docs y) (y_urexp y)).
-Definition role_no_restamp (y : sys) (r : N) : bool :=
-  match role_get r (g_roles (y_g y)) with
-  | Some (p, false) => princ_ok p (computed_chans r (y_docs y) (rexp_get r (y_rexp y)))
-  | _ => true
-  end.
-Definition op_no_restamp (y : sys) (o : sop) : bool :=
-  match o with
-  | SUChans _ | SURoles _ => user_no_restamp y
-  | SRChans r _ | SDelRole r => role_no_restamp y r
-  | SPull _ => user_no_restamp y && forallb (fun '(r, _) => role_no_restamp y r) (g_roles (y_g y))
-  | _ => true
-  end.
-
 (* ---- modelling assumptions ---- *)
 (* names: channel 0 is the star channel (outside the model end to end), grantee 0 is the user *)
 Definition nz (l : list N) : bool := forallb (fun x => negb (x =? 0)) l.
@@ -76,25 +60,6 @@ Definition op_names_ok (_ : sys) (o : sop) : bool :=
   | SDelRole r => negb (r =? 0)
   | _ => true
   end.
-
-(* no history entry is merged away: grant histories (max-entries merge of calculateHistory; the documented operating
-   assumption is that nothing is pruned inside a client's window) and document channel histories (5 periods per channel) *)
-Definition hist_quiet (h : hist) : bool :=
-  Nat.leb (length h + 64) 2000 && forallb (fun '(_, es) => Nat.leb (length es) 8) h.
-Definition princ_quiet (p : princ) : bool := hist_quiet (p_hist p) && Nat.leb (length (p_set p)) 64.
-Definition state_quiet (y : sys) : bool :=
-  princ_quiet (g_user (y_g y)) && princ_quiet (g_uroles (y_g y))
-  && forallb (fun '(_, (p, _)) => princ_quiet p) (g_roles (y_g y))
-  && forallb (fun x => forallb (fun '(c, _, _) => Nat.ltb (length (starts_of c (sd_csh x))) 4) (sd_cs x ++ sd_csh x)) (y_docs y).
-Definition op_quiet (y : sys) (_ : sop) : bool := state_quiet y.
-
-(* sequences stay below 2^64 *)
-Definition op_clock (y : sys) (_ : sop) : bool := y_next y + 2 <? max64.
-
-Definition op_hyps (y : sys) (o : sop) : bool :=
-  op_unlimited y o && op_no_stale_role y o && op_no_restamp y o && op_names_ok y o && op_quiet y o && op_clock y o.
-
-Definition hyps (ops : list sop) : bool := along op_hyps ops sys_init && no_refill (trace ops).
 
 Definition all_match (ops : list sop) : bool :=
   forallb (fun o => negb (o_caught o) || same_docs (o_client o) (o_visible o)) (trace ops).
